@@ -47,7 +47,7 @@ var refBinary = map[string]refOp{
 
 var refBuiltins = map[string]int{"len": 1, "all": 2, "none": 2, "any": 2, "one": 2, "filter": 2, "map": 2, "count": 2}
 
-func sortedKeys(m interface{}) []string {
+func sortedKeys11(m interface{}) []string {
 	var out []string
 	switch mm := m.(type) {
 	case map[string]int:
@@ -233,9 +233,9 @@ func (g *gen) list(depth, cd, max int) []ast.Node {
 	return out
 }
 
-var binKeys = sortedKeys(refBinary)
-var unKeys = sortedKeys(refUnary)
-var builtinKeys = sortedKeys(refBuiltins)
+var binKeys = sortedKeys11(refBinary)
+var unKeys = sortedKeys11(refUnary)
+var builtinKeys = sortedKeys11(refBuiltins)
 
 // expr generates a canonical tree of height ≤ depth at closure depth cd
 func (g *gen) expr(depth, cd int) ast.Node {
